@@ -47,6 +47,9 @@ CHECKS = {
  "C15": ("exploration", "online invariants every cycle (irq, status, pending model with set-over-clear priority) + one-to-one attribution of clear cycles to software write-ones; trigger/clear offset sweep",
          "1..2 EventManagers with 1..12 sources of mixed kinds behind a real CSR bank (8/32 bit, big/little); trigger waveforms and accessor-style software writes with the trigger-to-clear offset swept over -4..+4 cycles; SharedIRQ is the OR.",
          "trusted: simulator, the per-source model in props/c15.py; the documented clear input is observed to time coincidences", "4 C15"),
+ "C01": ("translation_validation", "differential execution: each design is built twice, one instance converted by the real backend and its Verilog text executed by an own IEEE 1364 interpreter (lib/vsim), the other run by the repository's FHDL simulator; every signal and memory word compared every tick under the same stimulus and clock schedule",
+         "Corpus of 119 real LiteX blocks at several parameterisations (stream, packet, Wishbone, AXI, AXI-Lite, CSR, CDC, cores) plus grammar-generated fragments in three classes (width-closed unsigned, width-closed mixed signedness, hostile) with If/Case/Array nesting, slices/Cat/Replicate on both sides, two clock domains with random edge schedules, resets, memories with every port mode / granularity / init; narrow combinational fragments exhaustively over their inputs, the rest under random stimuli. Disagreements are named by structural classifiers over the cone of statements that can have produced the first differing value; the width-closed classes must be disagreement-free except for the listed memory-template and Migen findings. Validates each translated program on the inputs run, not the translator.",
+         "trusted: lib/vsim (self-test vectors from IEEE 1364-2005 5.4/5.5 run before every shard), litex.gen.sim.core as the reference semantics, classifiers only name a disagreement (never decide one); Instances are not executed (none in the corpus, counted)", "4 C01"),
  "C02": ("exploration", "icontract post-conditions on SignalNamespace.get_name / build_signal_namespace + declaration parser over emitted text + fresh-process reproducibility runs",
          "Generated hostile designs (nested repeated hierarchies, equal names, digit/suffix-like/reserved/underscore overrides, memories, instances, shim on and off) are named through the real namer in several request orders and converted; names must be pairwise distinct, stable, legal and outside an independently written IEEE 1364-2005 + 1800-2017 keyword list, every identifier declared once in the text, and the text identical across fresh processes with different PYTHONHASHSEED.",
          "trusted: icontract, lib/models/verilog_keywords.py (independent keyword list), the declaration parser in props/c02lib.py", "4 C02"),
